@@ -11,8 +11,8 @@ value of the observer's store.
 """
 from . import lib, progs, mpc_common as mc
 
-RUNS_PER_PROG = {"quick": 2 ** 13, "thorough": 2 ** 19}   # 2^(input bits + tape bits) per program
-RUNS_TOTAL = {"quick": 150000, "thorough": 6000000}
+RUNS_PER_PROG = {"quick": 2 ** 13, "thorough": 2 ** 16}   # 2^(input bits + tape bits) per program
+RUNS_TOTAL = {"quick": 150000, "thorough": 1200000}
 
 
 def run(chk):
